@@ -3,12 +3,12 @@ import logging
 
 from hypothesis import strategies as st
 
-from ECAgent.Core import Agent, Model, ModelCompleteError, System
+from ECAgent.Core import Agent, Model, ModelCompleteError, System, SystemManager
 from vf.engine import Violation, InvalidCase
 from vf.fixtures import CompA, CompB, check, expect_raises, sized_lists, wone_of
 
 PROPERTY = "C06"
-BUDGET = {"quick": 2400, "thorough": 6000}
+BUDGET = {"quick": 8000, "thorough": 24000}
 RULE = ("2-6 recording systems with priorities 0..3 (ties), one of which calls model.complete() at a generated timestep T (every "
         "position of the completer in the priority order), or completion from outside between steps; T reached by single steps "
         "or inside an execute(n) call; afterwards 1-12 requests from {execute(), execute(n), systems.execute_systems(), "
@@ -18,7 +18,8 @@ RULE = ("2-6 recording systems with priorities 0..3 (ties), one of which calls m
         "timestep, agents and component listings never change after the completing call returned; throw_error=True raises "
         "ModelCompleteError every time, the other requests return silently. Non-trivial: the completer is not last in the order "
         "(>= 1 system was due after it) and >= 2 later advance requests of different kinds. Distinct = digest of the case.")
-ASSUMPTIONS = ["all systems use the always-on window, so every system after the completer was due in the completing timestep"]
+ASSUMPTIONS = ["one case in ten registers the systems with a second SystemManager(model) and drives that one: 'no system runs again' is read as covering every scheduler of the completed model",
+               "all systems use the always-on window, so every system after the completer was due in the completing timestep"]
 
 
 class Rec(System):
@@ -27,10 +28,12 @@ class Rec(System):
         self.log = log
         self.complete_at = complete_at
         self.flags = flags
+        self.clock = None               # the scheduler that runs this system, when it is not model.systems
 
     def execute(self):
-        self.log.append((self.model.systems.timestep, self.id))
-        if self.complete_at is not None and self.model.systems.timestep == self.complete_at:
+        now = (self.clock or self.model.systems).timestep
+        self.log.append((now, self.id))
+        if self.complete_at is not None and now == self.complete_at:
             self.model.complete()
             self.flags.append((self.model.is_running(), bool(self.model)))
 
@@ -54,12 +57,81 @@ def run_case(case):
         if lg == "quiet":
             model.logger.setLevel(logging.ERROR)
     try:
+        if case.get("manager") == "second" and not case.get("outside"):
+            return _run_second_manager(case, model, prios)
         return _run(case, model, prios)
     finally:
         logging.getLogger("MODEL").setLevel(logging.INFO)
 
 
+def _run_second_manager(case, model, prios):
+    """the systems are registered with a SECOND SystemManager built for the same model and driven through its
+    execute_systems(): they are systems of that model all the same, and nothing may run once the model is complete"""
+    log, flags = [], []
+    T = max(0, min(int(case.get("t", 0)), 12))
+    ci = int(case.get("completer", 0)) % len(prios)
+    mgr = SystemManager(model)
+    systems = []
+    for i, p in enumerate(prios):
+        s = Rec(f"s{i}", model, p, log, complete_at=(T if i == ci else None), flags=flags)
+        s.clock = mgr
+        mgr.add_system(s)
+        systems.append(s)
+    order = [s.id for s in sorted(systems, key=lambda s: -s.priority)]
+    for _ in range(T + 1):
+        mgr.execute_systems()
+    if model.is_running() or bool(model) or flags != [(False, False)]:
+        raise Violation("still-running", f"second manager: after complete(): is_running()={model.is_running()} bool={bool(model)} inside={flags}")
+    expected = [(t, sid) for t in range(T) for sid in order] + [(T, sid) for sid in order[:order.index(f"s{ci}") + 1]]
+    if log != expected:
+        extra = [e for e in log if e not in expected]
+        raise Violation("ran-after-completion" if extra else "log-mismatch",
+                        f"second manager: order {order}, completer s{ci} at t={T}: log tail {log[-6:]}, expected tail {expected[-6:]}")
+    nlog, ts = len(log), (mgr.timestep, model.timestep)
+    kinds = set()
+    for k, op in enumerate(case.get("after", [])[:14]):
+        kind = op["op"]
+        if kind == "exec_throw":
+            expect_raises("no-modelcompleteerror", ModelCompleteError, mgr.execute_systems, throw_error=True)
+        elif kind == "step":
+            model.execute()
+        else:
+            mgr.execute_systems()
+        kinds.add(kind)
+        if len(log) != nlog:
+            raise Violation("ran-after-completion", f"second manager: after completion, request {k} {op}: systems ran: {log[nlog:]}")
+        if (mgr.timestep, model.timestep) != ts or model.is_running():
+            raise Violation("state-changed-after-completion", f"second manager: after request {k} {op}: timesteps {(mgr.timestep, model.timestep)}, were {ts}")
+    pos = order.index(f"s{ci}")
+    return {"nontrivial": pos < len(order) - 1 and len(kinds) >= 2, "labels": ["second-manager"] + sorted(kinds)}
+
+
 def _run(case, model, prios):
+    decoy = None
+    if case.get("decoy"):
+        # a second model with systems of the SAME ids alive at the same time; it is completed before the model under test
+        # starts (decoy == "done") or keeps running throughout (decoy == "running"): models are independent of each other
+        decoy = Model()
+        dlog = []
+        for i in range(min(len(prios), 6)):
+            decoy.systems.add_system(Rec(f"s{i}", decoy, 0, dlog))
+        decoy.execute()
+        if case["decoy"] == "done":
+            decoy.complete()
+    try:
+        return _run_main(case, model, prios)
+    finally:
+        if decoy is not None:
+            n0 = len(dlog)
+            decoy.execute()
+            if case["decoy"] == "done" and (len(dlog) != n0 or decoy.is_running()):
+                raise Violation("other-model-disturbed", "a second model that was completed earlier ran again / reports running")
+            if case["decoy"] == "running" and (len(dlog) != n0 + min(len(prios), 6) or not decoy.is_running()):
+                raise Violation("other-model-disturbed", f"a second model that was never completed ran {len(dlog) - n0} systems in a step "
+                                                         f"(expected {min(len(prios), 6)}) / is_running()={decoy.is_running()}")
+
+
+def _run_main(case, model, prios):
     log, flags = [], []
     T = max(0, min(int(case.get("t", 0)), 12))
     outside = bool(case.get("outside"))
@@ -160,6 +232,8 @@ def _run(case, model, prios):
     nontrivial = (not outside and pos < len(order) - 1 and len(kinds) >= 2)
     if len(prios) > 32:
         kinds.add("systems>32")
+    if case.get("decoy"):
+        kinds.add(f"second-model-{case['decoy']}")
     labels = ["outside" if outside else ("completer-first" if pos == 0 else ("completer-last" if pos == len(order) - 1 else "completer-middle")),
               f"reach-{mode}", f"logger-{case.get('logger', 'default')}"] + sorted(kinds)
     return {"nontrivial": nontrivial, "labels": labels}
@@ -177,6 +251,7 @@ def strategy(tier):
         "completer": st.integers(0, 5), "t": wone_of(st.integers(0, 3), st.integers(0, 12)), "outside": st.sampled_from([False, False, False, True]),
         "reach": st.sampled_from(["single", "multi"]), "extra": st.integers(0, 3),
         "logger": st.sampled_from(["default", "default", "custom", "quiet", "custom-debug"]),
+        "manager": st.sampled_from(["model"] * 9 + ["second"]), "decoy": st.sampled_from([None, None, None, "done", "running"]),
         "after": sized_lists(after, 1, 12)})
 
 
